@@ -5,6 +5,7 @@ CONSTANTS
   MaxF = 1
   UseStop = FALSE
   Flat = TRUE
+  Pre = FALSE
 SPECIFICATION Spec
 INVARIANTS InvExact InvRoundTrip InvNearest InvBounded PrintSchedules
 CHECK_DEADLOCK FALSE
